@@ -85,10 +85,16 @@ def link_recovery(rng: Rng, oracle):
     c = recov_cfg(rng, k)
     n_sd = 3 + len(c.data) // max(1, c.seg_len)
     plan = rand_plan(rng, k, n_sd + 1, 4, kinds=("drop", "dup", "delay"))
-    l = Link(c, plan=plan, rng=rng, pacing=Pacing())
+    # in half of the runs the user's pacing is not the canonical one: several calls without a PDU per round
+    # (polling), deliveries held back for a round or handed over one by one — recovery must not depend on it
+    pacing = Pacing()
+    if rng.chance(0.5):
+        pacing = Pacing(idle_s=rng.choice((1, 2, 3)), idle_d=rng.choice((1, 2, 3, 4)),
+                        hold=rng.choice((0, 0.3, 0.5)), batch=rng.choice((99, 1, 2)))
+    l = Link(c, plan=plan, rng=rng, pacing=pacing)
     r = l.run(max_rounds=600, max_ticks=120)
     tr = Trace.of_session(l.sess)
-    return l.sess, oracle(tr, c, r), c, {"plan": plan_text(plan), "K": k}
+    return l.sess, oracle(tr, c, r), c, {"plan": plan_text(plan), "K": k, "pacing": str(pacing)}
 
 
 class DropEnum:
@@ -258,7 +264,10 @@ PLANS = {
     "C07": [("source-undisturbed", 1200, lambda rng: source_any(
         rng, lambda tr, c, r: o.Fails(list(o.o_C07(tr, c)) + list(o.o_seglen(tr, c))), quiet=True, well_behaved=True,
         vary_file=0.5)),
-            ("link-fault-free", 400, lambda rng: link_clean(rng, lambda tr, c, r: o.o_C07(tr, c)))],
+            ("link-fault-free", 400, lambda rng: link_clean(rng, lambda tr, c, r: o.o_C07(tr, c))),
+            # disturbed runs (NAKs served in every step, timers, cancel requests, foreign PDUs): the header
+            # clauses hold for every PDU, and every EOF (no error) still announces the whole file
+            ("source-disturbed", 400, lambda rng: source_any(rng, lambda tr, c, r: o.o_C07(tr, c), always_drain=True))],
     # C09, EOF clause (the checksum calculation itself is suite_checksum): sender sessions with cancel
     # requests, ACK timer expiries and several transactions on one handler whose source file is rewritten in
     # between; acknowledged mode twice as often (the positive ACK procedure re-sends the EOF)
